@@ -6,6 +6,7 @@ package vsync
 
 import (
 	stdsync "sync"
+	"time"
 	stdatomic "sync/atomic"
 	"unsafe"
 
@@ -22,10 +23,21 @@ type Mutex struct{ mu stdsync.Mutex }
 
 func (m *Mutex) Lock() {
 	vsched.Point(vsched.OpLock, unsafe.Pointer(m))
-	m.mu.Lock()
+	if vsched.D != nil {
+		// delay mode runs real goroutines in a bubble: waiting for a mutex
+		// is made a durable (fake-time) wait, or a holder that sleeps would
+		// stop the bubble's clock
+		for !m.mu.TryLock() {
+			time.Sleep(time.Microsecond)
+		}
+	} else {
+		m.mu.Lock()
+	}
+	vsched.DelayHeld(1)
 }
 
 func (m *Mutex) Unlock() {
+	vsched.DelayHeld(-1)
 	m.mu.Unlock()
 	vsched.Released(unsafe.Pointer(m), false)
 }
@@ -34,6 +46,7 @@ func (m *Mutex) TryLock() bool {
 	vsched.Point(vsched.OpTryLock, unsafe.Pointer(m))
 	ok := m.mu.TryLock()
 	if ok {
+		vsched.DelayHeld(1)
 		vsched.Acquired(unsafe.Pointer(m), false)
 	}
 	return ok
@@ -43,20 +56,36 @@ type RWMutex struct{ mu stdsync.RWMutex }
 
 func (m *RWMutex) Lock() {
 	vsched.Point(vsched.OpLock, unsafe.Pointer(m))
-	m.mu.Lock()
+	if vsched.D != nil {
+		for !m.mu.TryLock() {
+			time.Sleep(time.Microsecond)
+		}
+	} else {
+		m.mu.Lock()
+	}
+	vsched.DelayHeld(1)
 }
 
 func (m *RWMutex) Unlock() {
+	vsched.DelayHeld(-1)
 	m.mu.Unlock()
 	vsched.Released(unsafe.Pointer(m), false)
 }
 
 func (m *RWMutex) RLock() {
 	vsched.Point(vsched.OpRLock, unsafe.Pointer(m))
-	m.mu.RLock()
+	if vsched.D != nil {
+		for !m.mu.TryRLock() {
+			time.Sleep(time.Microsecond)
+		}
+	} else {
+		m.mu.RLock()
+	}
+	vsched.DelayHeld(1)
 }
 
 func (m *RWMutex) RUnlock() {
+	vsched.DelayHeld(-1)
 	m.mu.RUnlock()
 	vsched.Released(unsafe.Pointer(m), true)
 }
@@ -65,6 +94,7 @@ func (m *RWMutex) TryLock() bool {
 	vsched.Point(vsched.OpTryLock, unsafe.Pointer(m))
 	ok := m.mu.TryLock()
 	if ok {
+		vsched.DelayHeld(1)
 		vsched.Acquired(unsafe.Pointer(m), false)
 	}
 	return ok
@@ -74,6 +104,7 @@ func (m *RWMutex) TryRLock() bool {
 	vsched.Point(vsched.OpTryLock, unsafe.Pointer(m))
 	ok := m.mu.TryRLock()
 	if ok {
+		vsched.DelayHeld(1)
 		vsched.Acquired(unsafe.Pointer(m), true)
 	}
 	return ok
